@@ -258,6 +258,10 @@ func Observe(tag string, v interface{}) {
 
 func LogsAreClean() bool { return true }
 
+// LogTextIsClean: natively, the captured log text does not contain a secret; under the engine (where loggers
+// record their arguments instead of writing text) it is LogsAreClean.
+func LogTextIsClean(text string) bool { return !containsSecret([]byte(text)) }
+
 // SecretFilesAreOwnerOnly scans the scratch directories: a file holding a secret must be owner-only.
 func SecretFilesAreOwnerOnly() bool {
 	ok := true
